@@ -281,6 +281,230 @@ Qed.
 Lemma cache_ok_fresh : forall s, cache_ok s (st_cache fresh).
 Proof. intros s k a p H. discriminate H. Qed.
 
+(** ---- concurrency at loop-iteration granularity ---- *)
+(** what a search relies on: other activity on the shared heap may allocate nodes and move OTHER nodes'
+    cursors, but leaves the cursors of this search's own nodes alone *)
+Definition rely (t : mt) (h h' : heap) : Prop :=
+  length h <= length h' /\ forall a, In a (leaves t) -> get_cursor h' a = get_cursor h a.
+
+Lemma synced_rely : forall t h h' c, synced h t c -> rely t h h' -> synced h' t c.
+Proof.
+  intros t h h' c Hs [Hl Hg] a Ha. destruct (Hs a Ha) as [H1 H2]. split; [lia|]. now rewrite (Hg a Ha).
+Qed.
+
+Lemma doc_loop_env_spec : forall env n t,
+  (forall i h, rely t h (env i h)) ->
+  forall fuel lo h c acc,
+  synced h t c -> start_of c = lo -> n - lo < fuel ->
+  fst (doc_loop_env env fuel n t lo h acc) = acc ++ filter (matches t) (seq lo (n - lo)).
+Proof.
+  intros env n t Henv fuel. induction fuel as [|f IH]; intros lo h c acc Hs0 Hc Hf; [lia|].
+  cbn [doc_loop_env]. set (h0 := env f h).
+  assert (Hs : synced h0 t c) by (apply (synced_rely t h); [exact Hs0 | apply Henv]).
+  set (nd0 := next_doc n h0 t).
+  set (nd := if Nat.ltb nd0 lo then lo else nd0).
+  assert (Hnd : lo <= nd) by (subst nd; destruct (Nat.ltb nd0 lo) eqn:E; [lia | apply Nat.ltb_ge in E; lia]).
+  assert (Hskip : forall d, lo <= d -> d < nd -> d < n -> matches t d = false).
+  { intros d H1 H2 H3. apply (next_doc_sound n t h0 c d Hs); [lia | exact H3 |].
+    subst nd. fold nd0. destruct (Nat.ltb nd0 lo) eqn:E; [lia | exact H2]. }
+  destruct (Nat.leb n nd) eqn:Eb.
+  - apply Nat.leb_le in Eb. cbn. rewrite filter_none_seq; [now rewrite app_nil_r|].
+    intros d Hd. apply Hskip; lia.
+  - apply Nat.leb_gt in Eb.
+    assert (Hsplit : seq lo (n - lo) = seq lo (nd - lo) ++ nd :: seq (S nd) (n - S nd)).
+    { replace (n - lo) with ((nd - lo) + S (n - S nd)) by lia. rewrite seq_app. cbn.
+      replace (lo + (nd - lo)) with nd by lia. reflexivity. }
+    rewrite Hsplit, filter_app, (filter_none_seq (matches t) lo (nd - lo)) by (intros d Hd; apply Hskip; lia).
+    cbn [app filter].
+    rewrite (IH (S nd) (prepare h0 t nd) (true, nd)); [| now apply (synced_prepare h0 t c) | reflexivity | lia].
+    destruct (matches t nd); [rewrite <- app_assoc; reflexivity | reflexivity].
+Qed.
+
+(** a search's own steps only move its own cursors *)
+Lemma prepare_rely_other : forall t t' h d,
+  (forall a, In a (leaves t) -> a < length h) ->
+  (forall a, In a (leaves t) -> ~ In a (leaves t')) ->
+  rely t' h (prepare h t d).
+Proof.
+  intros t t' h d Hwf Hdis. split; [rewrite prepare_length; lia|].
+  intros a Ha. apply prepare_get; [exact Hwf|]. intro Hin. exact (Hdis a Hin Ha).
+Qed.
+
+(** thread invariant: done => the answer is complete; running => cursors in sync at position lo and the
+    answer is complete up to lo *)
+Definition th_inv (n : nat) (th : thread) (h : heap) : Prop :=
+  let t := th_tree th in
+  if th_done th then th_acc th = filter (matches t) (seq 0 n)
+  else exists c, synced h t c /\ start_of c = th_lo th /\ th_lo th <= n /\
+                 th_acc th = filter (matches t) (seq 0 (th_lo th)).
+
+Lemma th_step_tree : forall n th h, th_tree (fst (th_step n th h)) = th_tree th.
+Proof.
+  intros n th h. unfold th_step. destruct (th_done th); [reflexivity|].
+  destruct (Nat.leb n _); reflexivity.
+Qed.
+
+Lemma th_step_inv : forall n th h, th_inv n th h -> th_inv n (fst (th_step n th h)) (snd (th_step n th h)).
+Proof.
+  intros n th h Hi. unfold th_step. destruct (th_done th) eqn:Ed; [cbn; exact Hi|].
+  unfold th_inv in Hi. rewrite Ed in Hi. destruct Hi as (c & Hs & Hc & Hle & Hacc).
+  set (t := th_tree th) in *. set (lo := th_lo th) in *.
+  set (nd0 := next_doc n h t). set (nd := if Nat.ltb nd0 lo then lo else nd0).
+  assert (Hnd : lo <= nd) by (subst nd; destruct (Nat.ltb nd0 lo) eqn:E; [lia | apply Nat.ltb_ge in E; lia]).
+  assert (Hskip : forall d, lo <= d -> d < nd -> d < n -> matches t d = false).
+  { intros d H1 H2 H3. apply (next_doc_sound n t h c d Hs); [lia | exact H3 |].
+    subst nd. fold nd0. destruct (Nat.ltb nd0 lo) eqn:E; [lia | exact H2]. }
+  destruct (Nat.leb n nd) eqn:Eb.
+  - apply Nat.leb_le in Eb. cbn [fst snd]. unfold th_inv. cbn [th_tree th_lo th_acc th_done]. fold t. rewrite Hacc.
+    assert (E : seq 0 n = seq 0 lo ++ seq lo (n - lo)).
+    { pose proof (seq_app lo (n - lo) 0) as S0. replace (lo + (n - lo)) with n in S0 by lia. cbn [Nat.add] in S0. exact S0. }
+    rewrite E, filter_app.
+    rewrite (filter_none_seq (matches t) lo (n - lo)); [now rewrite app_nil_r|].
+    intros d Hd. apply Hskip; lia.
+  - apply Nat.leb_gt in Eb. cbn [fst snd]. unfold th_inv. cbn [th_tree th_lo th_acc th_done]. fold t.
+    exists (true, nd). split; [now apply (synced_prepare h t c)|]. split; [reflexivity|]. split; [lia|].
+    assert (E : seq 0 (S nd) = seq 0 lo ++ seq lo (nd - lo) ++ [nd]).
+    { pose proof (seq_app lo (S nd - lo) 0) as S0. replace (lo + (S nd - lo)) with (S nd) in S0 by lia.
+      cbn [Nat.add] in S0. rewrite S0. f_equal. pose proof (seq_app (nd - lo) 1 lo) as S1.
+      replace (nd - lo + 1) with (S nd - lo) in S1 by lia. rewrite S1. cbn [seq].
+      replace (lo + (nd - lo)) with nd by lia. reflexivity. }
+    rewrite E, !filter_app, <- Hacc.
+    rewrite (filter_none_seq (matches t) lo (nd - lo)) by (intros d Hd; apply Hskip; lia).
+    cbn. destruct (matches t nd); [reflexivity | now rewrite app_nil_r].
+Qed.
+
+Lemma th_step_frame : forall n th th' h,
+  (forall a, In a (leaves (th_tree th)) -> a < length h) ->
+  (forall a, In a (leaves (th_tree th)) -> ~ In a (leaves (th_tree th'))) ->
+  th_inv n th' h -> th_inv n th' (snd (th_step n th h)).
+Proof.
+  intros n th th' h Hwf Hdis Hi. unfold th_step. destruct (th_done th); [exact Hi|].
+  destruct (Nat.leb n _); [exact Hi|]. cbn.
+  unfold th_inv in *. destruct (th_done th'); [exact Hi|].
+  destruct Hi as (c & Hs & Hrest). exists c. split; [|exact Hrest].
+  eapply synced_rely; [exact Hs|]. now apply prepare_rely_other.
+Qed.
+
+Lemma th_step_len : forall n th h, length (snd (th_step n th h)) = length h.
+Proof.
+  intros n th h. unfold th_step. destruct (th_done th); [reflexivity|].
+  destruct (Nat.leb n _); [reflexivity|]. cbn. apply prepare_length.
+Qed.
+
+Definition th_measure (n : nat) (th : thread) : nat := if th_done th then 0 else S (n - th_lo th).
+
+Lemma th_step_measure : forall n th h, th_inv n th h -> th_done th = false ->
+  th_measure n (fst (th_step n th h)) < th_measure n th.
+Proof.
+  intros n th h Hi Ed. unfold th_step, th_measure. rewrite Ed.
+  unfold th_inv in Hi. rewrite Ed in Hi. destruct Hi as (c & _ & _ & Hle & _).
+  set (nd0 := next_doc n h (th_tree th)).
+  destruct (Nat.ltb nd0 (th_lo th)) eqn:E.
+  - destruct (Nat.leb n (th_lo th)) eqn:Eb; cbn; [lia|]. apply Nat.leb_gt in Eb. lia.
+  - apply Nat.ltb_ge in E. destruct (Nat.leb n nd0) eqn:Eb; cbn; [lia|]. apply Nat.leb_gt in Eb. lia.
+Qed.
+
+(** running a thread to completion, while another thread's invariant is framed *)
+Lemma th_run_spec : forall fuel n th th' h,
+  th_inv n th h -> th_inv n th' h ->
+  (forall a, In a (leaves (th_tree th)) -> a < length h) ->
+  (forall a, In a (leaves (th_tree th)) -> ~ In a (leaves (th_tree th'))) ->
+  th_measure n th <= fuel ->
+  let '(r, h') := th_run fuel n th h in
+  th_done r = true /\ th_tree r = th_tree th /\ th_inv n r h' /\ th_inv n th' h' /\ length h' = length h.
+Proof.
+  induction fuel as [|f IH]; intros n th th' h Hi Hi' Hwf Hdis Hm.
+  - cbn. unfold th_measure in Hm. destruct (th_done th) eqn:Ed; [|lia]. repeat split; auto.
+  - cbn [th_run]. destruct (th_step n th h) as [th1 h1] eqn:Es.
+    pose proof (th_step_inv n th h Hi) as I1. pose proof (th_step_frame n th th' h Hwf Hdis Hi') as I2.
+    pose proof (th_step_tree n th h) as T1. pose proof (th_step_len n th h) as L1.
+    rewrite Es in I1, I2, T1, L1. cbn in I1, I2, T1, L1.
+    assert (Hm1 : th_measure n th1 <= f).
+    { destruct (th_done th) eqn:Ed.
+      - unfold th_step in Es. rewrite Ed in Es. injection Es as <- <-. unfold th_measure. rewrite Ed. lia.
+      - pose proof (th_step_measure n th h Hi Ed) as M. rewrite Es in M. cbn in M. lia. }
+    specialize (IH n th1 th' h1 I1 I2).
+    rewrite T1, L1 in IH. specialize (IH Hwf Hdis Hm1).
+    destruct (th_run f n th1 h1) as [r h']. destruct IH as (A & B & C & D & E). repeat split; auto; congruence.
+Qed.
+
+Lemma par_run_spec : forall n sched a b h,
+  th_inv n a h -> th_inv n b h ->
+  (forall x, In x (leaves (th_tree a)) -> x < length h) ->
+  (forall x, In x (leaves (th_tree b)) -> x < length h) ->
+  (forall x, In x (leaves (th_tree a)) -> ~ In x (leaves (th_tree b))) ->
+  let '(a', b', h') := par_run n sched a b h in
+  th_inv n a' h' /\ th_inv n b' h' /\ th_tree a' = th_tree a /\ th_tree b' = th_tree b /\ length h' = length h.
+Proof.
+  intros n sched. induction sched as [|[|] r IH]; intros a b h Ia Ib Wa Wb Dis; cbn [par_run].
+  - repeat split; auto.
+  - destruct (th_step n a h) as [a1 h1] eqn:Es.
+    pose proof (th_step_inv n a h Ia) as I1. pose proof (th_step_frame n a b h Wa Dis Ib) as I2.
+    pose proof (th_step_tree n a h) as T1. pose proof (th_step_len n a h) as L1.
+    rewrite Es in I1, I2, T1, L1. cbn in I1, I2, T1, L1.
+    specialize (IH a1 b h1 I1 I2). rewrite T1, L1 in IH. specialize (IH Wa Wb Dis).
+    destruct (par_run n r a1 b h1) as [[a' b'] h']. destruct IH as (A & B & C & D & E). repeat split; auto; congruence.
+  - destruct (th_step n b h) as [b1 h1] eqn:Es.
+    assert (Dis' : forall x, In x (leaves (th_tree b)) -> ~ In x (leaves (th_tree a))) by (intros x Hb Ha; exact (Dis x Ha Hb)).
+    pose proof (th_step_inv n b h Ib) as I1. pose proof (th_step_frame n b a h Wb Dis' Ia) as I2.
+    pose proof (th_step_tree n b h) as T1. pose proof (th_step_len n b h) as L1.
+    rewrite Es in I1, I2, T1, L1. cbn in I1, I2, T1, L1.
+    specialize (IH a b1 h1 I2 I1). rewrite T1, L1 in IH. specialize (IH Wa Wb Dis).
+    destruct (par_run n r a b1 h1) as [[a' b'] h']. destruct IH as (A & B & C & D & E). repeat split; auto; congruence.
+Qed.
+
+Lemma fresh_ext_get_old : forall h h' a, fresh_ext h h' -> a < length h -> get_cursor h' a = get_cursor h a.
+Proof. intros h h' a (e & -> & _) Ha. unfold get_cursor. now rewrite app_nth1. Qed.
+
+Lemma matches_reference : forall s q t,
+  (forall d, matches t d = qeval s (simp s q) d) ->
+  filter (matches t) (seq 0 (ndocs s)) = reference s q.
+Proof.
+  intros s q t H. unfold reference. apply filter_ext_seq. intros d Hd. rewrite H. apply simp_sound. lia.
+Qed.
+
+Lemma par_search_correct : forall cf s qa qb sched st,
+  cache_ok s (st_cache st) ->
+  par_search cf s qa qb sched st = (reference s qa, reference s qb).
+Proof.
+  intros cf s qa qb sched st Hc. unfold par_search.
+  destruct (build true cf s (simp s qa) st) as [ta st1] eqn:Ea.
+  destruct (build true cf s (simp s qb) st1) as [tb st2] eqn:Eb.
+  destruct (build_spec cf s (simp s qa) st ta st1 Ea Hc) as (A1 & A2 & A3 & A4).
+  destruct (build_spec cf s (simp s qb) st1 tb st2 Eb A4) as (B1 & B2 & B3 & B4).
+  pose proof (fresh_ext_len _ _ A1) as LA. pose proof (fresh_ext_len _ _ B1) as LB.
+  set (n := ndocs s). set (h2 := st_heap st2).
+  assert (Sa : synced h2 ta (false, 0)).
+  { intros a Ha. specialize (A2 a Ha). split; [subst h2; lia|].
+    subst h2. rewrite (fresh_ext_get_old _ _ a B1) by lia. eapply fresh_ext_get; eauto. }
+  assert (Sb : synced h2 tb (false, 0)).
+  { intros a Ha. specialize (B2 a Ha). split; [subst h2; lia|]. eapply fresh_ext_get; eauto. }
+  assert (Ia : th_inv n (mk_thread ta) h2).
+  { exists (false, 0). split; [exact Sa|]. split; [reflexivity|]. split; [cbn; lia | reflexivity]. }
+  assert (Ib : th_inv n (mk_thread tb) h2).
+  { exists (false, 0). split; [exact Sb|]. split; [reflexivity|]. split; [cbn; lia | reflexivity]. }
+  assert (Wa : forall x, In x (leaves (th_tree (mk_thread ta))) -> x < length h2) by (intros x Hx; apply (Sa x Hx)).
+  assert (Wb : forall x, In x (leaves (th_tree (mk_thread tb))) -> x < length h2) by (intros x Hx; apply (Sb x Hx)).
+  assert (Dis : forall x, In x (leaves (th_tree (mk_thread ta))) -> ~ In x (leaves (th_tree (mk_thread tb)))).
+  { cbn. intros x Ha Hb. specialize (A2 x Ha). specialize (B2 x Hb). lia. }
+  pose proof (par_run_spec n sched (mk_thread ta) (mk_thread tb) h2 Ia Ib Wa Wb Dis) as P.
+  destruct (par_run n sched (mk_thread ta) (mk_thread tb) h2) as [[a b] h]. destruct P as (Pa & Pb & Ta & Tb & Lh).
+  assert (Wa' : forall x, In x (leaves (th_tree a)) -> x < length h) by (rewrite Ta, Lh; exact Wa).
+  assert (Dis' : forall x, In x (leaves (th_tree a)) -> ~ In x (leaves (th_tree b))) by (rewrite Ta, Tb; exact Dis).
+  assert (Ma : th_measure n a <= S n) by (unfold th_measure; destruct (th_done a); lia).
+  pose proof (th_run_spec (S n) n a b h Pa Pb Wa' Dis' Ma) as R1.
+  destruct (th_run (S n) n a h) as [a' h1]. destruct R1 as (Da & Ta' & Ia' & Ib' & L1).
+  assert (Wb' : forall x, In x (leaves (th_tree b)) -> x < length h1) by (rewrite Tb, L1, Lh; exact Wb).
+  assert (Dis'' : forall x, In x (leaves (th_tree b)) -> ~ In x (leaves (th_tree a'))).
+  { rewrite Ta', Ta, Tb. intros x Hb Ha. exact (Dis x Ha Hb). }
+  assert (Mb : th_measure n b <= S n) by (unfold th_measure; destruct (th_done b); lia).
+  pose proof (th_run_spec (S n) n b a' h1 Ib' Ia' Wb' Dis'' Mb) as R2.
+  destruct (th_run (S n) n b h1) as [b' h3]. destruct R2 as (Db & Tb' & Ib'' & Ia'' & _).
+  unfold th_inv in Ia'', Ib''. cbv zeta in Ia'', Ib''. rewrite Da in Ia''. rewrite Db in Ib''.
+  rewrite Ia'', Ib'', Ta', Ta, Tb', Tb. cbn [th_tree mk_thread].
+  f_equal; subst n; apply matches_reference; assumption.
+Qed.
+
 (** ---- the code before the repair depends on the history ---- *)
 Definition wit_shard : shard := {| ndocs := 4; meta := fun k d => N.eqb k 1 && Nat.ltb d 3 |}.
 Definition wit_cf : config := {| max_entries := 10; choose := fun _ _ => 0 |}.
